@@ -279,14 +279,16 @@ def flatten_extends(
         if str(c.full_reference()) == str(orig_class.full_reference()):
             raise Exception("Cannot extend class '{}' with itself".format(c.full_reference()))
 
+        c = flatten_extends(c, extends.class_modification, parent=c.parent)
+
+        # A class that extends a built-in class, directly or through other type
+        # definitions (type V = Real(..); type HV = V(..)), is that built-in type.
         if c.type == "__builtin":
             if len(orig_class.extends) > 1:
                 raise Exception(
                     "When extending a built-in class (Real, Integer, ...) you cannot extend other classes as well"
                 )
             extended_orig_class.type = c.type
-
-        c = flatten_extends(c, extends.class_modification, parent=c.parent)
 
         # Imports are not inherited (spec 3.5 sections 5.3.1 and 7.1)
         # extended_orig_class.imports.update(c.imports)
